@@ -359,6 +359,16 @@ def run(chk, prog, rmax=12, nmax=8, dom=3):
                     elif nb & set(carried) and not (na & set(carried)):
                         Rp = eng.ev(a, st0)
         if Rp is None:
+            # closed-form schemes (lo = th*n, hi = th+1 < N ? (th+1)*n : extent): the extent is the one row/size count the upper
+            # bounds mention directly
+            cands = set()
+            for p_ in paths:
+                for a_ in p_['fields'][hi_f].atoms():
+                    if a_ not in DEFS and re.search(r'->(row|col|size|order)$', a_):
+                        cands.add(a_)
+            if len(cands) == 1:
+                Rp = Poly.atom(cands.pop())
+        if Rp is None:
             chk.broke('slices: %s: no clamp of the range against an extent found (unknown slicing scheme)' % f.name)
             continue
         base_atoms = set()
